@@ -8,7 +8,7 @@ TECH = "exhaustive small-scope enumeration of the real implementation against an
 
 CHECKS = {
     "C12": ("Explicit-state exploration over a shared pool (two single objects per kind - int dtype and float with a non-normalised "
-            "representative - and a collection per kind; 17 kinds) with about 700 actions (every catalogue operation on every choice of pool "
+            "representative, for points also a float already-normalised one and a float point at infinity - and a collection per kind; 17 kinds) with about 700 actions (every catalogue operation on every choice of pool "
             "operands): the state is a byte-level snapshot of every array reachable from every pool object, the constants I, J, infty, "
             "infty_plane, absolute_conic, the cached epsilon / delta arrays and the mutable default arguments. Closure: every action leads back "
             "to the initial state (so every finite sequence does); premise checked differentially: after each action and along the growing "
@@ -48,7 +48,7 @@ CHECKS = {
             "all lattice triangles (2D radius 2, 3D radius 1) and tetrahedra; Segment length / midpoint over all lattice pairs; RegularPolygon for "
             "lattice centres (on and off the origin), n = 3..8, radii, axes in 3D; Cuboid.area and face areas for orthogonal and sheared edge "
             "triples; == over every permutation of the vertex cycle (true exactly for rotations/reversals), moved vertices, polyhedra with permuted "
-            "and re-rotated faces; centre / radius / inradius / area of every regular polygon's image under k*M for an isometry M and k = 2, -1, 1/2.",
+            "and re-rotated faces; centre / radius / inradius / area of every regular polygon's image under k*M for an isometry M and k = 2, -1, 1/2; == in both orders against the 30 polyhedra with one face replaced by a copy of another.",
             NOTE, TECH, "DESIGN.md section 5, C17"),
     "C15": ("Conic.from_lines over all ordered pairs of distinct lines of {-2..2}^3 (all sign patterns) and Quadric.from_planes over all pairs of "
             "distinct planes of {-1,0,1}^4: degenerate, and components equal the generating pair as an unordered pair of projective classes, single "
@@ -83,7 +83,7 @@ CHECKS = {
             "a 3D sub-scope) against the exact rational closed form (whose five symmetry identities are asserted exactly), collection and single "
             "paths, several representatives, invariance under projective generators; pencils of four lines and the from_point form for every "
             "lattice vertex (origin, coordinate axes, infinity included), pencils of 3D lines, coaxial planes with carrier lines exactly skew to the axis; "
-            "harmonic_set over all parameter triples; NotCollinear / NotConcurrent over all non-degenerate lattice 4-tuples and mixed collections.",
+            "all 1680 ordered 4-tuples of Gaussian-integer parameters mixing real and non-real ones (collection and per-argument-dtype single calls, plain and from a fifth point); harmonic_set over all parameter triples; NotCollinear / NotConcurrent over all non-degenerate lattice 4-tuples and mixed collections.",
             NOTE, TECH, "DESIGN.md section 5, C11"),
     "C09": ("dist over all lattice point pairs (2D radius 2, 3D radius 1; several homogeneous representatives, int/float), point x every lattice "
             "line/plane (incident and not; equal coordinate vectors), point x 3D lines in all lattice directions, planes parallel to lines, parallel "
@@ -115,7 +115,7 @@ CHECKS = {
             "with numpy on the raw arrays (index types of t) or with exact affine point arithmetic; every index expression of length <= rank+1 "
             "(thorough: rank+2, rank 4) over a 13-item grammar (ints, slices, None, Ellipsis, lists, 2-D int arrays, 1-D/2-D boolean masks) x index-type "
             "patterns is executed; the provenance of every result axis is predicted by numpy's rule and validated against numpy itself with a tracer "
-            "array; transpose (all permutations and cycles, rank<=4), expand_dims (all axes), copy.",
+            "array; scalar-bool items (True, np.True_) at every position of every short basic expression; transpose (all permutations and cycles, rank<=4), expand_dims (all axes), copy.",
             NOTE, "exhaustive enumeration of an index-expression grammar and operand pairings on the real implementation against numpy-validated reference semantics", "DESIGN.md section 5, C19"),
     "C05": ("Explicit-state BFS over diagram-building programs (add_node / add_edge over a universe of 10-12 tensor objects incl. collections, "
             "a copy() twin and a dimension-3 tensor; every ordered pair, self edges and repeated edges; depth 3 quick / 4 thorough, programs containing a rejected edge to depth 3) with a reference "
